@@ -118,9 +118,9 @@ ASSUME = ["the static evaluation is opaque: its value for every position of the 
           "fresh engine per search unless the case asks for warm-up searches on the same engine"]
 
 
-def go_case(cases, fen, d, ref, mode="exact", moves=(), sm=(), warm=(), flipof=0, cap=60000, w=10, why="", cycle=()):
+def go_case(cases, fen, d, ref, mode="exact", moves=(), sm=(), warm=(), flipof=0, cap=60000, w=10, why="", cycle=(), pre=()):
     c = {"id": len(cases) + 1, "family": "search", "k": "godepth", "fen": fen, "moves": list(moves), "d": d, "searchmoves": list(sm), "ref": ref, "mode": mode,
-         "cycle": list(cycle), "noeval": mode == "deeprep",
+         "cycle": list(cycle), "noeval": mode == "deeprep", "pre": list(pre),
          "warm": list(warm), "flipof": flipof, "cap": cap, "w": w, "why": why, "key": [fen, list(moves), d, list(sm), bool(warm)]}
     cases.append(c)
     return c
@@ -229,6 +229,23 @@ def check_c10(tier, replay=None):
         # (2) end to end: histories with repetitions at various distances
         for fen, moves, nxt in shuffle_histories(rng, 1500 if T else 160):
             go_case(cases, fen, 1, "plain", mode="rep", moves=moves, sm=[nxt], w=3, why="history with shuttling pieces; search the move that may complete a threefold repetition")
+        # (2a) another game was set up on the same engine before: its positions must not count as occurrences of this game
+        for _ in range(300 if T else 40):
+            white_strong = rng.random() < 0.5
+            board = {6: "K", 62: "k", 1: "N", 57: "n", 15: "P", 55: "p"}
+            board[3 if white_strong else 59] = "Q" if white_strong else "q"
+            stm = rng.choice("wb")
+            wm = rng.choice([("b1", "c3")] + ([("d1", "d2")] if white_strong else []))
+            bm = rng.choice([("b8", "c6")] + ([("d8", "d7")] if not white_strong else []))
+            first, second = (wm, bm) if stm == "w" else (bm, wm)
+            cyc = [first[0] + first[1], second[0] + second[1], first[1] + first[0], second[1] + second[0]]
+            fmn0 = rng.choice([1, 7, 60, 1200])
+            f = board_to_fen(board, stm).split(" ")
+            g0 = " ".join(f[:4] + ["0", str(fmn0)])
+            k = rng.choice([1, 2, 2, 3])                      # the earlier game went round the cycle k times
+            g2 = " ".join(f[:4] + [str(4 * k), str(fmn0 + 2 * k)])   # this game: same placement, clocks say 4k plies later
+            go_case(cases, g2, 1, "plain", mode="rep", moves=[], sm=[cyc[0]], pre=[{"fen": g0, "moves": cyc * k}], w=3,
+                    why="a previous position command on the same engine left an identical game behind; this game's history is only its own FEN")
         # (2b) repetitions completed deep inside the search line: perpetual-check positions, the cycle already played k times;
         #      go depth 4 restricted to the first check must value the line that completes the third occurrence as a draw
         perpetuals = [("6k1/6p1/8/7Q/8/7K/1rr5/1q6 w - - 0 1", ["h5e8", "g8h7", "e8h5", "h7g8"]),
